@@ -6,6 +6,6 @@ CONSTANTS
   TblOrd = 3
   TblSize = 4
   TblFull = 3
-  MaxRows = 3
+  Rows = {1, 2, 3, 5}
 INVARIANTS WellFormed Kernel ConstrInv OrderInv Writes Pairs PairsTbl RowSets Dups Expects Emit
 CHECK_DEADLOCK FALSE
